@@ -40,7 +40,109 @@ func runTour(g int) string {
 
 }
 
+// sharedTrace is compiled ONCE and run by many runtimes at the same time: its errors are raised at
+// different depths and lines, and both the script (e.stack) and the host (Error.String) format the
+// positions of the frames, which are looked up in the file table the shared Script carries.
+const sharedTrace = `
+function lvl3(k) { if (k % 3 === 0) { null.p } if (k % 3 === 1) { undefinedName } throw new RangeError("r" + k) }
+function lvl2(k) {
+  return lvl3(k)
+}
+function lvl1(k) { try { return lvl2(k) } catch (e) { return e.name + "@" + e.stack } }
+var parts = [];
+for (var k = 0; k < 9; k++) { parts.push(lvl1(k)) }
+parts.push(String(G));
+if (G % 2 === 0) { lvl2(G) }
+parts.join("#");
+`
+
+func runSharedTrace(sc *otto.Script, g int) string {
+	vm := otto.New()
+	vm.Set("G", g)
+	v, err := vm.Run(sc)
+	if err != nil {
+		if oe, ok := err.(*otto.Error); ok {
+			return "ERR " + oe.String()
+		}
+		return "ERR " + err.Error()
+	}
+	return v.String()
+}
+
 func main() {
+	// runtimes with a stack depth limit: some recurse close to the limit through Run, the others are
+	// entered from Go at rest (Value.Call, Otto.Call) - the nesting one runtime reaches must not count
+	// against another (or against its own later calls); the results are fixed by the programs
+	{
+		const limit = 12 // for the runtimes entered from Go; the recursing ones have no limit and go deep
+		var lg sync.WaitGroup
+		for i := 0; i < 8; i++ {
+			lg.Add(1)
+			go func() {
+				defer lg.Done()
+				vm := otto.New()
+				if i%2 == 1 {
+					vm.SetStackDepthLimit(limit)
+				}
+				if _, err := vm.Run(`function down(n) { return n > 0 ? 1 + down(n - 1) : 0 } function sum(n) { return n > 0 ? n + sum(n - 1) : 0 }`); err != nil {
+					fmt.Fprintf(os.Stderr, "UNIT-ERROR limit %d: %v\n", i, err)
+					return
+				}
+				sum, _ := vm.Get("sum")
+				for r := 0; r < 150; r++ {
+					var got string
+					switch {
+					case i%2 == 0:
+						v, err := vm.Run(`down(400)`)
+						got = fmt.Sprint(v, err)
+						if got != "400 <nil>" {
+							fmt.Fprintf(os.Stderr, "UNIT-ERROR limit %d: down(400) without a limit gave %s (limit of the others: %d)\n", i, got, limit)
+							return
+						}
+					case i%4 == 1: // one entry point per runtime: alternating them would reset what one leaves behind
+						v, err := sum.Call(otto.UndefinedValue(), 3)
+						got = fmt.Sprint(v, err)
+					default:
+						v, err := vm.Call("sum", nil, 3)
+						got = fmt.Sprint(v, err)
+					}
+					if i%2 == 1 && got != "6 <nil>" {
+						fmt.Fprintf(os.Stderr, "UNIT-ERROR limit %d: sum(3) called from Go at rest under limit %d gave %s while other runtimes recurse\n", i, limit, got)
+						return
+					}
+				}
+			}()
+		}
+		lg.Wait()
+	}
+	// a compiled Script shared by concurrently running runtimes, including the formatting of
+	// error traces (positions come from the Script's file); reference computed afterwards
+	if sc, err := otto.New().Compile("shared-trace.js", sharedTrace); err == nil {
+		var sg sync.WaitGroup
+		sgot := make([][]string, 8)
+		for i := 0; i < 8; i++ {
+			sg.Add(1)
+			go func() {
+				defer sg.Done()
+				for r := 0; r < 40; r++ {
+					sgot[i] = append(sgot[i], runSharedTrace(sc, i))
+				}
+			}()
+		}
+		sg.Wait()
+		for i := range sgot {
+			want := runSharedTrace(sc, i)
+			for _, g := range sgot[i] {
+				if g != want {
+					fmt.Fprintf(os.Stderr, "UNIT-ERROR shared-trace %d: a runtime sharing a compiled Script with others formatted a different result than alone: %.200q want %.200q\n", i, g, want)
+					break
+				}
+			}
+		}
+	} else {
+		fmt.Fprintf(os.Stderr, "UNIT-ERROR shared-trace: %v\n", err)
+	}
+
 	// the concurrent executions come FIRST, on cold package-level state; each goroutine uses
 	// its own patterns/keys; the sequential reference is computed afterwards
 	var tg sync.WaitGroup
